@@ -2,11 +2,12 @@
 
 A case is a list of items (one round-trip to the model driver per case): {'items': [item, …]}, item =
   {'k': 'multi',   bs, B, sizes, tags:[[pre,feat],…], extra, pre, via}   padded_batch_client_datasets / _federated_data
-  {'k': 'bshuf',   n, B, seed, src}                                      buffered_shuffle on a base iterable
+  {'k': 'bshuf',   n, B, seed, src[, vals]}                              buffered_shuffle on a base iterable (vals: [pos, POOL index])
   {'k': 'bsb',     bs, B, sizes, seed, tags}                             buffered_shuffle_batch_client_datasets
   {'k': 'clients', n, B, seed, passes, fd}                               FederatedData.shuffled_clients
   {'k': 'srb',     sizes, bs, Bc, Be, seed, steps}                       shuffle_repeat_batch_federated_data
-  {'k': 'rep',     base, n, ops}                                         RepeatableIterator
+  {'k': 'rep',     base, n, ops[, pool]}                                 RepeatableIterator (pool: item values = POOL[i]:
+                                                                         None, falsy builtins, nested tuples, id/dataset-like pairs)
   {'k': 'order',   n, B, seeds}                                          non-trivial order, judged over many passes
 
 Randomness of the code under test: `buffered_shuffle` is wrapped (module attribute, from outside) so
@@ -86,6 +87,25 @@ class Boxed:
 
   def __init__(self, v):
     self.v = v
+
+
+# Item values a stream may legitimately carry: None, every falsy builtin, nested tuples, (client_id, dataset)-like
+# pairs.  Entries are pairwise distinct under `same` (type and value), so an observed item identifies its position.
+POOL = [None, 0, False, '', (), b'', 0.0, ('a', 1), ((), (None,)), (b'cid', None), 1, 'x', (0,), True, b'\x00',
+        frozenset(), (b'client', ('rows', 3))]
+# entries usable together as dict keys (0 == False == 0.0 and 1 == True collide as keys)
+POOL_DICT = [0, 3, 4, 5, 7, 8, 9, 10, 11, 12, 14, 15, 16]
+
+
+def same(a, b):
+  return a is b or (type(a) is type(b) and a == b)
+
+
+def position_of(x, vals):
+  for i, v in enumerate(vals):
+    if same(x, v):
+      return i
+  return -1
 
 
 class C15(core.Property):
@@ -174,8 +194,14 @@ class C15(core.Property):
     if k == 'bshuf':
       n = rng.choice([0, 1, 2, 3, 5, 8, 13, 20])
       B = rng.choice([1, 2, 3, max(1, n - 1), max(1, n), n + 1, n + 5, rng.randrange(1, 12)])
-      return {'k': 'bshuf', 'n': n, 'B': B, 'seed': rng.randrange(2**31),
+      item = {'k': 'bshuf', 'n': n, 'B': B, 'seed': rng.randrange(2**31),
               'src': rng.choice(['list', 'tuple', 'gen', 'iter'])}
+      if n and rng.random() < 0.5:
+        # some source items are None / falsy / nested values instead of opaque objects: [position, POOL index]
+        codes = self._pool_codes(rng, min(n, rng.randrange(1, 6)))
+        where = rng.sample(range(n), len(codes))
+        item['vals'] = [[w, c] for w, c in zip(where, codes)]
+      return item
     if k == 'bsb':
       bs = rng.randrange(1, 7)
       sizes = self._sizes(rng, bs, 6)
@@ -199,9 +225,22 @@ class C15(core.Property):
               'Be': rng.choice([1, 1, 2, 4, sum(sizes) + 2]), 'seed': rng.choice([0, rng.randrange(2**31)]),
               'steps': rng.randrange(1, 3 * (sum(sizes) // bs + 2))}
     n = rng.choice([0, 1, 2, 3, 5])
-    return {'k': 'rep', 'base': rng.choice(['list', 'tuple', 'dict', 'str', 'bytes', 'gen', 'range', 'iter', 'map',
-                                                 'oneshot_iterable', 'reshuffling_iterable']),
-            'n': n, 'ops': rng.randrange(0, 4 * (n + 1) + 2)}
+    base = rng.choice(['list', 'tuple', 'dict', 'str', 'bytes', 'gen', 'range', 'iter', 'map',
+                       'oneshot_iterable', 'reshuffling_iterable'])
+    item = {'k': 'rep', 'base': base, 'n': n, 'ops': rng.randrange(0, 4 * (n + 1) + 2)}
+    if base not in ('str', 'bytes', 'range') and n and rng.random() < 0.75:
+      item['pool'] = self._pool_codes(rng, n, base == 'dict')
+    return item
+
+  @staticmethod
+  def _pool_codes(rng, n, hashable_distinct=False):
+    """n distinct POOL indices; None (code 0) and the other falsy values at random positions incl. first/last/only."""
+    codes = list(POOL_DICT) if hashable_distinct else list(range(len(POOL)))
+    rng.shuffle(codes)
+    codes = codes[:n]
+    if codes and 0 not in codes and rng.random() < 0.6:
+      codes[rng.choice([0, len(codes) - 1, rng.randrange(len(codes))])] = 0
+    return codes
 
   def gen_cases(self, rng, tier):
     seeds = [rng.randrange(2**31) for _ in range(8)]
@@ -228,6 +267,18 @@ class C15(core.Property):
             for b in ('list', 'tuple', 'dict', 'str', 'bytes', 'gen', 'range', 'iter', 'map',
                       'oneshot_iterable', 'reshuffling_iterable') for n in (0, 1, 2, 4)]
     yield {'items': reps}
+    # … and items that are None / falsy / nested at the first, a middle, the last and the only position
+    reps = []
+    for b in ('list', 'tuple', 'dict', 'gen', 'iter', 'map', 'oneshot_iterable', 'reshuffling_iterable'):
+      for pool in ([0], [0, 10], [10, 0], [10, 0, 7], [1, 3, 4, 0, 6], [2, 5, 8], [9, 16, 0]):
+        if b == 'dict' and len({POOL[c] for c in pool}) != len(pool):
+          continue
+        reps.append({'k': 'rep', 'base': b, 'n': len(pool), 'ops': 3 * (len(pool) + 1) + 1, 'pool': pool})
+    yield {'items': reps}
+    yield {'items': [{'k': 'bshuf', 'n': n, 'B': B, 'seed': seeds[0], 'src': src, 'vals': [[w, c] for w, c in vals]}
+                     for n, vals in ((1, [(0, 0)]), (3, [(0, 0), (2, 1)]), (5, [(4, 0), (1, 3), (2, 4)]),
+                                     (6, [(2, 0), (0, 2), (5, 6), (3, 5)]))
+                     for B in (1, 2, n, n + 2) for src in ('list', 'gen')]}
     n_cases = 800 if tier == 'quick' else 9000
     for _ in range(n_cases):
       yield {'items': [self._gen_item(rng) for _ in range(10)]}
@@ -264,13 +315,28 @@ class C15(core.Property):
         for x in sorted({0, s // 2, s - 1}):
           if 0 <= x < s and not (k == 'srb' and sum(sizes) - s + x == 0):
             yield {'items': [{**it, 'sizes': sizes[:i] + [x] + sizes[i + 1:]}]}
+    if it.get('pool'):
+      pool = it['pool']
+      for i in range(len(pool)):
+        yield {'items': [{**it, 'pool': pool[:i] + pool[i + 1:], 'n': len(pool) - 1}]}
+      for i, c in enumerate(pool):
+        if c != 10 and 10 not in pool:
+          yield {'items': [{**it, 'pool': pool[:i] + [10] + pool[i + 1:]}]}
+    if it.get('vals'):
+      for i in range(len(it['vals'])):
+        yield {'items': [{**it, 'vals': it['vals'][:i] + it['vals'][i + 1:]}]}
     for key, lo in (('bs', 1), ('B', 1), ('Bc', 1), ('Be', 1), ('n', 1 if k == 'clients' else 0), ('ops', 0),
                     ('steps', 1), ('passes', 1)):
       if key in it:
         v = it[key]
         for x in sorted({lo, v // 2, v - 1}):
           if lo <= x < v:
-            yield {'items': [{**it, key: x}]}
+            cand = {**it, key: x}
+            if key == 'n' and 'pool' in it:
+              cand['pool'] = it['pool'][:x]
+            if key == 'n' and 'vals' in it:
+              cand['vals'] = [v2 for v2 in it['vals'] if v2[0] < x]
+            yield {'items': [cand]}
     if it.get('seed') not in (None, 0):
       yield {'items': [{**it, 'seed': 0}]}
 
@@ -396,14 +462,18 @@ class C15(core.Property):
   def _bshuf(self, it):
     n, B, seed = it['n'], it['B'], it['seed']
     items = [Boxed(i) for i in range(n)]
+    for w, c in it.get('vals', []):
+      if w < n:
+        items[w] = POOL[c]
+    where = {id(o): i for i, o in enumerate(items)}
     mk = {'list': lambda: list(items), 'tuple': lambda: tuple(items), 'gen': lambda: (x for x in items),
           'iter': lambda: iter(items)}[it['src']]
     problems, checks = [], []
     self.calls.clear()
-    out = [o.v for o in self.cds.buffered_shuffle(mk(), B, np.random.RandomState(seed))]
+    out = [where.get(id(o), -1) for o in self.cds.buffered_shuffle(mk(), B, np.random.RandomState(seed))]
     recs = list(self.calls)
     self.calls.clear()
-    out2 = [o.v for o in self._orig_bs(mk(), B, np.random.RandomState(seed))]
+    out2 = [where.get(id(o), -1) for o in self._orig_bs(mk(), B, np.random.RandomState(seed))]
     if sorted(out) != list(range(n)):
       problems.append(f'buffered_shuffle(range({n}), {B}) emitted {out}: not every item exactly once')
     for t, x in enumerate(out):
@@ -611,6 +681,9 @@ class C15(core.Property):
     n, ops = it['n'], it['ops']
     kind = it['base']
     vals = list(range(n))
+    if it.get('pool') is not None and kind not in ('str', 'bytes', 'range'):
+      vals = [POOL[c] for c in it['pool']]
+      n = len(vals)
     mk = {'list': lambda: vals, 'tuple': lambda: tuple(vals), 'dict': lambda: {v: str(v) for v in vals},
           'str': lambda: ''.join(chr(97 + v) for v in vals), 'bytes': lambda: bytes(vals),
           'gen': lambda: (v for v in vals), 'range': lambda: range(n), 'iter': lambda: iter(vals),
@@ -618,7 +691,12 @@ class C15(core.Property):
           'oneshot_iterable': self._odd_iterable('oneshot_iterable', vals),
           'reshuffling_iterable': self._odd_iterable('reshuffling_iterable', vals)}[kind]
     base = mk()
-    canon = (lambda x: ord(x) - 97) if kind == 'str' else int
+    if kind == 'str':
+      canon = lambda x: ord(x) - 97
+    elif 'pool' in it and kind not in ('bytes', 'range'):
+      canon = lambda x: position_of(x, vals)      # items identify their position (POOL entries are distinct)
+    else:
+      canon = int
     ri = self.fdm.RepeatableIterator(base)
     out = []
     for _ in range(ops):
@@ -627,17 +705,18 @@ class C15(core.Property):
       except StopIteration:
         out.append('stop')
     problems = []
-    cyc = vals + ['stop']
+    cyc = list(range(n)) + ['stop']
     want = [cyc[t % len(cyc)] for t in range(ops)]
     if out != want:
-      problems.append(f'RepeatableIterator({kind} of {n}) {ops} next() calls: {out}, every pass should replay {vals}')
+      problems.append(f'RepeatableIterator({kind} of {vals!r}) {ops} next() calls yield positions {out}, every pass '
+                      f'should replay the {n} items in order then stop: {want}')
     if iter(ri) is not ri:
       problems.append('__iter__ does not return the iterator itself')
     # whole passes through the for-protocol
     ri2 = self.fdm.RepeatableIterator(mk())
     p1, p2, p3 = list(ri2), list(ri2), list(ri2)
-    if not ([canon(x) for x in p1] == [canon(x) for x in p2] == [canon(x) for x in p3] == vals):
-      problems.append(f'list(it) three times over {kind}: {p1} {p2} {p3}')
+    if not ([canon(x) for x in p1] == [canon(x) for x in p2] == [canon(x) for x in p3] == list(range(n))):
+      problems.append(f'list(it) three times over {kind} {vals!r}: {p1!r} {p2!r} {p3!r}')
     mkind = 'container' if kind in ('list', 'tuple', 'dict', 'str', 'bytes') else 'iterable'
     return problems, [(line('c15.repiter', mkind, n, ops), out, 'RepeatableIterator')], {'impl': out, 'nb': ops}
 
@@ -742,8 +821,14 @@ class C15(core.Property):
       t.append(f'multi:via={it["via"]}')
     elif k in ('bshuf', 'clients'):
       t.append(f'{k}:B' + ('=1' if it['B'] == 1 else '>n' if it['B'] > it['n'] else '=n' if it['B'] == it['n'] else '<n'))
+      if it.get('vals'):
+        t.append('bshuf:items=' + ('with-None' if any(c == 0 for _, c in it['vals']) else 'falsy/nested'))
     elif k == 'rep':
       t.append(f'rep:{it["base"]}')
+      if it.get('pool'):
+        pool = it['pool']
+        t.append('rep:items=' + ('None-only' if pool == [0] else 'None-first' if pool[0] == 0 else
+                                 'None-last' if pool[-1] == 0 else 'None-middle' if 0 in pool else 'falsy/nested'))
     elif k == 'bsb':
       t.append('bsb:' + ('error' if det.get('error') else 'ok'))
     return t
